@@ -38,6 +38,7 @@ type n10Step struct {
 	Op     *n09Op `json:"op,omitempty"`     // lock / unlock
 	State  string `json:"state,omitempty"`  // follower | sync | vote | config: force the follower's role
 	Direct bool   `json:"direct,omitempty"` // in-process followerDB.Lock/UnLock instead of TCP
+	Wait   bool   `json:"wait,omitempty"`   // Op is a LOCK (flag 0x08, Timeout > 0) on the key n10WaitKey, which its preloaded holder keeps over the request's Count: the leader queues it; the holder is released through the leader once no early answer came
 }
 
 type n10Case struct {
@@ -63,9 +64,13 @@ func (c *n10Case) fingerprint() uint64 {
 	return vHash(c.Text, c.Stall, sb.String())
 }
 
+const n10WaitKey, n10WaitHolder = 9, 9
+const n10KeyWaitAnswered = "C10:waiting-concurrent-check-answered-by-non-leader"
+
 var n10States = map[string]uint8{"follower": STATE_FOLLOWER, "sync": STATE_SYNC, "vote": STATE_VOTE, "config": STATE_CONFIG}
 
 type n10Reply struct {
+	Early   bool // answered before the holder was released (doWait)
 	None    bool
 	Result  uint8
 	LCount  uint16
@@ -84,7 +89,11 @@ func (r n10Reply) String() string {
 	if r.Raw != "" {
 		return strconv.Quote(r.Raw)
 	}
-	return fmt.Sprintf("%s lcount=%d lrcount=%d count=%d rcount=%d lockid=%x data=%x", aResultName(r.Result), r.LCount, r.LRCount, r.Count, r.Rcount, r.LockId[:2], r.Data)
+	e := ""
+	if r.Early {
+		e = " (answered at once, nothing released yet)"
+	}
+	return fmt.Sprintf("%s lcount=%d lrcount=%d count=%d rcount=%d lockid=%x data=%x%s", aResultName(r.Result), r.LCount, r.LRCount, r.Count, r.Rcount, r.LockId[:2], r.Data, e)
 }
 
 // stateError: the request was refused because of the node's role. Binary: result code STATE_ERROR.
@@ -127,6 +136,7 @@ func n10Command(op *n09Op, seq int) *protocol.LockCommand {
 	cmd.RequestId = aReqId(seq)
 	cmd.Flag, cmd.DbId = uint8(op.Flag), uint8(op.Db)
 	cmd.LockId, cmd.LockKey = n09LockId(op.Id), n09Key(op.Key)
+	cmd.Timeout = uint16(op.T)
 	cmd.ExpriedFlag, cmd.Expried = uint16(op.EF), uint16(op.E)
 	cmd.Count, cmd.Rcount = uint16(op.Cnt), uint8(op.Rc)
 	if op.V != nil {
@@ -142,17 +152,27 @@ func (x *n10Conn) do(op *n09Op) n10Reply {
 	if x.text {
 		return x.doText(op)
 	}
+	cmd, ok := x.write(op)
+	if !ok {
+		return n10Reply{None: true}
+	}
+	return x.read(cmd.RequestId)
+}
+
+func (x *n10Conn) write(op *n09Op) (*protocol.LockCommand, bool) {
 	cmd := n10Command(op, x.seq)
 	buf := make([]byte, 64)
 	if err := cmd.Encode(buf); err != nil {
-		return n10Reply{None: true}
+		return cmd, false
 	}
 	if cmd.Data != nil {
 		buf = append(buf, cmd.Data.Data...)
 	}
-	if _, err := x.c.Write(buf); err != nil {
-		return n10Reply{None: true}
-	}
+	_, err := x.c.Write(buf)
+	return cmd, err == nil
+}
+
+func (x *n10Conn) read(reqId [16]byte) n10Reply {
 	for {
 		rb := make([]byte, 64)
 		if _, err := io.ReadFull(x.rd, rb); err != nil {
@@ -178,11 +198,35 @@ func (x *n10Conn) do(op *n09Op) n10Reply {
 			}
 			rp.Data = append(lb, pb...)
 		}
-		if res.RequestId != cmd.RequestId {
+		if res.RequestId != reqId {
 			continue
 		}
 		return rp
 	}
+}
+
+// doWait sends a request that the leader is going to queue (the key is over the request's Count, Timeout > 0) and
+// watches when the answer comes: within n10EarlyWindow, i.e. before anybody released anything (Early), or only after
+// release() - an unlock of the holder through the leader - made the leader decide.
+const n10EarlyWindow = 300 * time.Millisecond
+
+func (x *n10Conn) doWait(op *n09Op, release func()) n10Reply {
+	x.seq++
+	_ = x.c.SetDeadline(time.Now().Add(time.Duration(op.T+4) * time.Second))
+	cmd, ok := x.write(op)
+	if !ok {
+		return n10Reply{None: true}
+	}
+	_ = x.c.SetReadDeadline(time.Now().Add(n10EarlyWindow))
+	_, perr := x.rd.Peek(64) // does not consume anything when the deadline passes
+	_ = x.c.SetReadDeadline(time.Now().Add(time.Duration(op.T+4) * time.Second))
+	if perr == nil {
+		rp := x.read(cmd.RequestId)
+		rp.Early = true
+		return rp
+	}
+	release()
+	return x.read(cmd.RequestId)
 }
 
 func n10Resp(args ...string) []byte {
@@ -253,6 +297,7 @@ const n10KeyProbable = "C10:concurrent-check-answered-locally-by-non-leader"
 const n10KeyUnlockUnknown = "C10:non-leader-unlock-of-unknown-key-answers-UNLOCK_ERROR"
 
 type n10Info struct {
+	waits, waitsDecidedByLeader int
 	excludedUnknownUnlock int
 	forwarded, refused, direct, noReply int
 	stateSwitches                      int
@@ -409,7 +454,19 @@ func n10RunCase(c *n10Case) (out n10Out) {
 				return
 			}
 		case st.Op != nil:
-			rp := conn.do(st.Op)
+			var rp n10Reply
+			if st.Wait && !c.Text {
+				rp = conn.doWait(st.Op, func() {
+					log = append(log, fmt.Sprintf("#%d   (no answer within %v: holder released through the leader)", i, n10EarlyWindow))
+					e.send(n09Op{K: "unlock", Key: n10WaitKey, Id: n10WaitHolder})
+				})
+				out.info.waits++
+				if !rp.Early && !rp.None {
+					out.info.waitsDecidedByLeader++
+				}
+			} else {
+				rp = conn.do(st.Op)
+			}
 			replies[i] = &rp
 			log = append(log, fmt.Sprintf("#%d tcp(%s) %v -> %v", i, state, *st.Op, rp))
 			switch {
@@ -483,12 +540,21 @@ func n10RunCase(c *n10Case) (out n10Out) {
 		if st.Op == nil || st.Direct || replies[i] == nil || replies[i].None || replies[i].stateError() {
 			continue
 		}
-		lr := lconn.do(st.Op)
+		var lr n10Reply
+		if st.Wait && !c.Text {
+			lr = lconn.doWait(st.Op, func() { e2.send(n09Op{K: "unlock", Key: n10WaitKey, Id: n10WaitHolder}) })
+		} else {
+			lr = lconn.do(st.Op)
+		}
 		llog = append(llog, fmt.Sprintf("#%d %v -> %v", i, *st.Op, lr))
 		fr := *replies[i]
+		if st.Wait && fr.Early && !lr.Early {
+			fail(n10KeyWaitAnswered, "step %d %v: the follower path answered at once, while nothing had been released; the leader queues this request and answers only when the holder is released\n    via follower: %v\n    from leader : %v\n  same requests sent to a leader directly:\n    %s", i, *st.Op, fr, lr, strings.Join(llog, "\n    "))
+			return
+		}
 		if !reflect.DeepEqual(lr, fr) && !(len(lr.Data) == 0 && len(fr.Data) == 0 && lr.Result == fr.Result && lr.LCount == fr.LCount && lr.LRCount == fr.LRCount && lr.Count == fr.Count && lr.Rcount == fr.Rcount && lr.LockId == fr.LockId && lr.Raw == fr.Raw && lr.None == fr.None) {
 			key := "C10:reply-through-follower-differs"
-			if st.Op.K == "lock" && st.Op.Flag&0x08 != 0 {
+			if st.Op.K == "lock" && st.Op.Flag&0x08 != 0 && st.Op.T == 0 {
 				key = n10KeyProbable
 			}
 			fail(key, "step %d %v: reply relayed by the follower differs from the leader's own reply\n    via follower: %v\n    from leader : %v\n  same requests sent to a leader directly:\n    %s", i, *st.Op, fr, lr, strings.Join(llog, "\n    "))
@@ -552,12 +618,25 @@ func n10GenCase(t *rapid.T, st *vStat) *n10Case {
 			c.Steps = append(c.Steps, n10Step{Op: n10GenOp(t, c.Text, keys)})
 		}
 	}
+	if !c.Text && rapid.IntRange(0, 2).Draw(t, "withWait") == 0 {
+		// one request that has to wait at the leader: concurrent-check flag, Timeout 1..3 s, on a key its preloaded
+		// holder (Count 0) keeps over the request's Count
+		w := &n09Op{K: "lock", Key: n10WaitKey, Id: rapid.IntRange(0, 2).Draw(t, "waitId"), Flag: 0x08, T: rapid.IntRange(1, 3).Draw(t, "waitT"),
+			E: 60, EF: 0x0100, Cnt: rapid.SampledFrom([]int{0, 0, 1}).Draw(t, "waitCnt")}
+		if w.Cnt == 1 {
+			// two holders keep the key over Count 1 as well
+			c.Preload = append(c.Preload, n09Op{K: "lock", Key: n10WaitKey, Id: n10WaitHolder + 1, E: 600, EF: 0x0100, Cnt: 1})
+		}
+		c.Preload = append(c.Preload, n09Op{K: "lock", Key: n10WaitKey, Id: n10WaitHolder, E: 600, EF: 0x0100, Cnt: w.Cnt})
+		at := rapid.IntRange(0, len(c.Steps)).Draw(t, "waitAt")
+		c.Steps = append(c.Steps[:at:at], append([]n10Step{{Op: w, Wait: true}}, c.Steps[at:]...)...)
+	}
 	if vIsKnown(n10KeyProbable) {
 		// known finding: a non-leader answers concurrent-check requests (flag 0x08, timeout 0) itself from its
 		// replicated view. Excluded: the flag is not generated for direct calls nor while the stream is stalled
 		// (with a live stream the harness lets the follower catch up, so both views agree).
 		for _, s := range c.Steps {
-			if s.Op != nil && s.Op.K == "lock" && s.Op.Flag&0x08 != 0 && (s.Direct || c.Stall) {
+			if s.Op != nil && s.Op.K == "lock" && s.Op.Flag&0x08 != 0 && s.Op.T == 0 && (s.Direct || c.Stall) {
 				s.Op.Flag &^= 0x08
 				st.Exclude("concurrent-check flag dropped from a direct / stalled-stream request (known finding " + n10KeyProbable + ")")
 			}
@@ -657,6 +736,8 @@ func TestC10_Forward(t *testing.T) {
 		add(c.Text, "text protocol")
 		add(!c.Text, "binary protocol")
 		add(out.info.noReply > 0, "request without reply")
+		add(out.info.waits > 0, "waiting concurrent-check request (Timeout > 0) through the follower")
+		add(out.info.waitsDecidedByLeader > 0, "waiting request answered only after the leader released the holder")
 		for i := 0; i < out.info.excludedUnknownUnlock; i++ {
 			st.Exclude("direct unlock of a key unknown to the node skipped (known finding " + n10KeyUnlockUnknown + ")")
 		}
